@@ -30,7 +30,8 @@ func main() {
 		r.SetRule("evaluation = one owner scenario: (owner or pipeline, input length, fault, consumer stop point[, repetition with its own latency/perturbation tables]) " +
 			"executed against the real library with every stream a ProbeStream, judged from the probes' counters at the moment the reducer / the outermost Close returned. " +
 			"non-trivial = the library consumed at least one item from the probes; distinct = by (owner or pipeline, stop class {never, mid, end, error, ctx, reducer-ok, reducer-error, reducer-ctx}, " +
-			"fault class {none, src-first, src-middle, src-at-end, outer-src, callback, block-at-end}).")
+			"fault class {none, src-first, src-middle, src-at-end, outer-src, callback, block-at-end, ctx-at-construction (parallel.MapStream built with an already cancelled / expired context), " +
+			"ctx-at-call (the reducer call's context, or the consumer's per-call context from its j-th Next on, already cancelled / expired)}).")
 		r.Assume("the consumer calls Close exactly once on the outermost returned stream and does not call Next afterwards (reducers close by themselves)")
 		r.Assume("stream.Runs is used as documented: each inner run is drained (or the whole stream abandoned) before the outer stream is advanced")
 		r.Assume("stream-valued items only flow through stages that forward every item they pull (probe, Map, First, Join) into Flatten; a combinator that may drop an item is not blamed for not closing a stream it treats as an opaque value")
@@ -56,6 +57,7 @@ type meta struct {
 	Stop   int    `json:"stop"` // -1: until End / error; k: Close after k outputs (seq) or >= k items (conc)
 	Rep    int    `json:"rep"`
 	Term   string `json:"-"`
+	f      fault
 }
 
 type ran struct {
@@ -68,7 +70,12 @@ type ran struct {
 // execute builds and drives one scenario on the calling goroutine and judges it right there.
 func execute(s *scen, build func(s *scen) built, ctx context.Context, m meta, pert *vkit.Perturber) ran {
 	b := build(s)
-	o := drive(s, b, ctx, m.Stop, s.conc, pert)
+	var dead context.Context
+	deadFrom := -1
+	if m.f.Kind == fCtxCall {
+		dead, deadFrom = deadCtx(m.f.Stage), m.f.P
+	}
+	o := drive(s, b, ctx, dead, deadFrom, m.Stop, s.conc, pert)
 	v := s.judge(false)
 	return ran{s: s, o: o, v: v, m: m}
 }
@@ -170,6 +177,20 @@ func faultsFor(o ownerDef, n int, conc bool) []fault {
 	if conc {
 		fs = append(fs, fault{Kind: fBlock})
 	}
+	// context already over: at construction (owners that take one), at the reducer call, or in the
+	// consumer's per-call context from its j-th Next on
+	if o.Ctor {
+		fs = append(fs, fault{Kind: fCtxCtor, P: 0}, fault{Kind: fCtxCtor, P: 1})
+	}
+	for j := 0; j <= n; j++ {
+		fs = append(fs, fault{Kind: fCtxCall, P: j, Stage: 0})
+		if j == 0 {
+			fs = append(fs, fault{Kind: fCtxCall, P: 0, Stage: 1})
+		}
+		if o.Red {
+			break
+		}
+	}
 	return fs
 }
 
@@ -266,6 +287,11 @@ func sequential(r *vkit.Report) {
 						ps.Fault = fault{Kind: fSrc, P: p}
 						pairs = append(pairs, ps)
 					}
+					for j := 0; j <= n; j++ {
+						ps := base
+						ps.Fault = fault{Kind: fCtxCall, P: j, Stage: j % 2}
+						pairs = append(pairs, ps)
+					}
 					var cbs []int
 					if st[a].Cb {
 						cbs = append(cbs, 0)
@@ -305,11 +331,11 @@ func sequential(r *vkit.Report) {
 }
 
 func ownerMeta(o ownerDef, n int, f fault) meta {
-	return meta{Owner: o.Name, Family: o.Family, N: n, Fault: f.String(), fclass: f.class(n), Stop: -1}
+	return meta{Owner: o.Name, Family: o.Family, N: n, Fault: f.String(), fclass: f.class(n), Stop: -1, f: f}
 }
 
 func pipeMeta(st []stageDef, ps pspec) meta {
-	return meta{Owner: ps.name(st), Family: "pipeline", N: ps.N, Fault: ps.Fault.String(), fclass: ps.Fault.class(ps.N), Stop: -1, Term: ps.Term}
+	return meta{Owner: ps.name(st), Family: "pipeline", N: ps.N, Fault: ps.Fault.String(), fclass: ps.Fault.class(ps.N), Stop: -1, Term: ps.Term, f: ps.Fault}
 }
 
 // seqAllStops runs the configuration to End / error and then once per earlier stop point.
@@ -321,6 +347,9 @@ func seqAllStops(c *vkit.Case, m meta, build func(s *scen) built) {
 	}
 	if len(full.o.StopClass) >= 7 && full.o.StopClass[:7] == "reducer" {
 		return
+	}
+	if m.f.Kind == fCtxCall {
+		return // the earlier stop points are those of the fault-free configuration
 	}
 	for k := 0; k <= full.o.Outputs; k++ {
 		m.Stop = k
@@ -350,16 +379,18 @@ func floors(r *vkit.Report, os []ownerDef, conc bool) {
 	}
 	part := "caller-goroutine"
 	classes := []string{"never", "mid", "end", "error", "reducer-ok", "reducer-error"}
+	classes = append(classes, "ctx", "reducer-ctx")
+	fclasses := []string{"none", "src-first", "src-middle", "src-at-end", "callback", "ctx-at-call"}
 	if conc {
 		part = "goroutine-backed"
-		classes = append(classes, "ctx", "reducer-ctx")
+		fclasses = append(fclasses, "ctx-at-construction", "block-at-end")
 	}
 	r.Floor(part+" owner configurations exercised", int64(ran), int64(len(os)))
 	r.Floor(part+" owner configurations with a non-trivial scenario", int64(got), int64(want))
 	for _, cl := range classes {
 		r.Floor(part+" scenarios with stop class "+cl, r.Table("scenarios by stop class", cl), 10)
 	}
-	for _, cl := range []string{"none", "src-first", "src-middle", "src-at-end", "callback"} {
+	for _, cl := range fclasses {
 		r.Floor(part+" scenarios with fault class "+cl, r.Table("scenarios by fault class", cl), 10)
 	}
 }
@@ -429,7 +460,7 @@ func concurrent(r *vkit.Report) {
 		for _, n := range nsFor(o, maxN) {
 			for _, f := range faultsFor(o, n, true) {
 				list = append(list, tuple{o: o, n: n, f: f, stop: -1})
-				if o.Red {
+				if o.Red || f.Kind == fCtxCall {
 					continue
 				}
 				for k := 0; k <= n; k++ {
